@@ -197,7 +197,7 @@ def write_ndjson(path, items):
             f.write(json.dumps(it, separators=(",", ":")) + "\n")
 
 
-def run_harness(binp, tests, wdir, shards=NCPU, timeout=900, per_test_timeout="60s", env=None):
+def run_harness(binp, tests, wdir, shards=NCPU, timeout=900, per_test_timeout="60s", env=None, max_hangs=4):
     """Run tests through the harness in parallel shards.  Returns a list of
     (tests_of_shard, trace_path).  A dead process is restarted after the test
     that killed it; that test gets a synthetic `panic` event (process death is
@@ -216,6 +216,7 @@ def run_harness(binp, tests, wdir, shards=NCPU, timeout=900, per_test_timeout="6
         dbdir = os.path.join(wdir, "db-%d" % i)
         os.makedirs(dbdir, exist_ok=True)
         start = 0
+        hangs = 0
         while start < len(part):
             p = subprocess.run([binp, "run", "-tests", tp, "-out", op, "-start", str(start), "-work", dbdir, "-timeout", per_test_timeout],
                                stdout=subprocess.PIPE, stderr=subprocess.PIPE, text=True, timeout=timeout, env=env)
@@ -234,6 +235,9 @@ def run_harness(binp, tests, wdir, shards=NCPU, timeout=900, per_test_timeout="6
                             ended = True
             if p.returncode == 3:       # watchdog: hang event already written
                 start = done
+                hangs += 1
+                if hangs >= max_hangs:  # every hang costs the watchdog delay: a few are evidence enough
+                    break
                 continue
             # process died (background panic, fatal error): synthesise the observation
             with open(op, "a") as f:
@@ -416,3 +420,61 @@ def validate_many(shard_traces, invs, wdir, seconds=None, **kw):
         runs += r
         hits |= h
     return failures, states, runs, hits
+
+
+# --------------------------------------------------------------------------- linearizability (SodLin)
+
+LIN_CFG = """SPECIFICATION Spec
+CONSTANTS
+  TraceFile = "%(file)s"
+  Dev = {}
+CONSTRAINT Track
+POSTCONDITION Accepted
+CHECK_DEADLOCK FALSE
+"""
+
+
+def validate_lin(trace_path, wdir, timeout=900, max_fail=10, heap="4g"):
+    """Check every recorded concurrent history of the file for a linearization (TLC explores the
+    linearization points).  Returns (failures, states, runs)."""
+    tests = split_tests(trace_path)
+    os.makedirs(wdir, exist_ok=True)
+    failures, states, runs = [], 0, 0
+    pos = 0
+    while pos < len(tests) and len(failures) < max_fail:
+        part = tests[pos:]
+        fp = os.path.join(wdir, "lin-%d.ndjson" % runs)
+        with open(fp, "w") as f:
+            for _, lines in part:
+                f.writelines(lines)
+        r = tlc("SodLin", LIN_CFG % {"file": fp}, wdir, workers=1, timeout=timeout, heap=heap, name="SodLin_%d" % runs)
+        runs += 1
+        states += r.distinct
+        os.remove(fp)
+        if r.timeout:
+            raise Inconclusive("TLC timed out on " + trace_path)
+        m = re.search(r'<<"HWM", (\d+), (\d+)>>', r.out)
+        if not m or r.exception:
+            raise Inconclusive("SodLin run failed on %s:\n%s" % (trace_path, r.out[-3000:]))
+        hwm, total = int(m.group(1)), int(m.group(2))
+        if hwm == total + 1:
+            break
+        # H[hwm] could not be consumed: the history containing it has no linearization
+        n = 0
+        hit = None
+        for k, (tid, lines) in enumerate(part):
+            if n + len(lines) >= hwm:
+                hit = k
+                break
+            n += len(lines)
+        if hit is None:
+            raise Inconclusive("cannot map HWM %d" % hwm)
+        tid, lines = part[hit]
+        idx = hwm - n - 1
+        try:
+            evt = json.loads(lines[idx])
+        except Exception:
+            evt = None
+        failures.append(Failure(tid, "Linearizable", idx, evt, lines, "no linearization: event %d of the history cannot be consumed" % idx))
+        pos += hit + 1
+    return failures, states, runs
